@@ -697,6 +697,7 @@ M("C05", OP, """                        body=_replace(node, func=Name(id="method
                     orelse=fallback_call)""", "_RecInliner always calls the fallback")
 
 SF = "pymbolic/mapper/stringifier.py"
+M("C06", "pymbolic/parser.py", """                left_exp = primitives.Slice((None, None))""", """                left_exp = primitives.Slice((None,))""", "revert of fix 0948b37 (lone colon is a two-part slice)")
 M("C06", SF, "PREC_BITWISE_AND = 9\nPREC_BITWISE_XOR = 8", "PREC_BITWISE_AND = 8\nPREC_BITWISE_XOR = 9", "PREC and/xor swapped")
 M("C06", SF, """        if enclosing_prec > my_prec:
             return f"({s})"
